@@ -28,6 +28,7 @@ CONSTANTS Classes,      \* set of class records (see ColumnWriterMC)
           WriteOpts,    \* further write options that change how a value is STORED but not the table: "default" | "int96"
                         \* (times='int96' for timestamp columns) | "explicit" (object_encoding named for an object column)
                         \* | "fixed" (fixed_text with a length no value exceeds, for object columns of text / bytes)
+                        \* | "hive" (file_scheme='hive': the same table as a directory of part files)
           Codecs        \* compression option: the layout (page cuts are by uncompressed size) and the cells do not depend on it
 
 NULL == -1
